@@ -4,9 +4,13 @@ package main
 
 import (
 	"fmt"
+	"go/ast"
 	"go/token"
+	"go/types"
 	"sort"
 	"strings"
+
+	"golang.org/x/tools/go/types/typeutil"
 )
 
 func init() {
@@ -554,24 +558,32 @@ func (c *Check) completeCallers(rule string) {
 		}
 		return
 	}
+	// callers by call site in the syntax tree (a path may carry the callee's events in place of the call when a
+	// single-use helper was spliced in, so call events alone miss such callers)
 	callersOf := func(t *Func) []*Func {
 		var out []*Func
-		seen := map[*Func]bool{}
+		if t.Obj == nil {
+			return nil
+		}
 		for _, g := range c.P.Funcs {
-			if g.Body == nil || !g.isHandWritten() || seen[g] {
+			if g.Body == nil || !g.isHandWritten() {
 				continue
 			}
-			for _, pa := range c.P.PathsOf(g) {
-				hit := false
-				for _, ev := range pa.Events {
-					if ev.Kind == EvCall && ev.CI.fn == t {
+			info := g.Pkg.TypesInfo
+			hit := false
+			ast.Inspect(g.Body, func(n ast.Node) bool {
+				if lit, ok := n.(*ast.FuncLit); ok && lit != g.Lit {
+					return false
+				}
+				if call, ok := n.(*ast.CallExpr); ok {
+					if fo, _ := typeutil.Callee(info, call).(*types.Func); fo != nil && fo == t.Obj {
 						hit = true
 					}
 				}
-				if hit && !seen[g] {
-					seen[g] = true
-					out = append(out, g)
-				}
+				return true
+			})
+			if hit {
+				out = append(out, g)
 			}
 		}
 		return out
